@@ -307,6 +307,38 @@ func run(c *core.Ctx) {
 		if j.n == 0 {
 			okGolden++
 		}
+		// the SAME request value serves the next image (a release loop that swaps Image, or refills its buffer):
+		// whatever the request object remembers from the first call, the result is about the bytes supplied now
+		if j.n == 0 && r.IntN(3) == 0 {
+			next := fw.Image(r, 256<<10)
+			how := "image-replaced"
+			if len(next) == len(ec.Image) && r.IntN(2) == 0 {
+				copy(ec.Image, next)
+				how = "image-buffer-refilled"
+			} else {
+				ec.Image = next
+			}
+			var g2 *epb.VMGoldenMeasurement
+			m2 := c.Guard(i, "endorse.GoldenMeasurement/reused-request", gname, core.Budget{PanicNotJudged: true}, func() { g2, err = endorse.GoldenMeasurement(ctx) })
+			if m2.Panicked {
+				c.End(i)
+				continue
+			}
+			{
+				if err != nil {
+					j.bad("endorse.GoldenMeasurement/reused-request", "well-formed-request-refused", "%s: %v", how, err)
+				} else {
+					j.checkGolden("endorse.GoldenMeasurement/reused-request", g2, ec, reqImageID)
+					g = g2
+					c.Count("requests-reused-for-a-second-image/"+how, 1)
+					shape += "|reused"
+				}
+			}
+			if j.n != 0 {
+				c.End(i)
+				continue
+			}
+		}
 		// the signed payload
 		var e *epb.VMLaunchEndorsement
 		kctx, kerr := a.Context(&doubles.FCtl{}, authority.Opts{})
